@@ -21,6 +21,7 @@ type WorkerResult struct {
 	Configs     []map[string]any  `json:"configs"`
 	Violations  []WorkerViolation `json:"violations"`
 	CanaryOK    bool              `json:"canary_ok"`
+	Digests     map[string]string `json:"digests,omitempty"`
 	Capped      bool              `json:"capped"`
 	Error       string            `json:"error,omitempty"`
 }
